@@ -10,15 +10,9 @@ import (
 type Spec_OwaBiasListener struct {
 }
 
-type Spec_OwaBiasListener struct {
-}
-
 type Spec_OWAPreferenceFunc struct {
 }
 
 type Spec_owaParams struct {
 	Weights *model.WeightedCriteria `json:"weights"`
-}
-
-type Spec_OWAPreferenceFunc struct {
 }
